@@ -263,7 +263,7 @@ func c12Run(w *W) {
 			c.do("s2.Close", func() (interface{}, error) { return nil, s2.Close() })
 			w.Probe("err-no-peers")
 		case 12: // the real tcp / ipc / tls+tcp endpoint code on the simulated network
-			tran := w.simFallback([]string{"tcp", "ipc", "tls+tcp"}[w.Choose(simrt.SProg, 3)])
+			tran := w.simFallback([]string{"tcp", "ipc", "tls+tcp", "ws", "wss"}[w.Choose(simrt.SProg, 5)])
 			nt := curNet
 			a := w.Addr(tran)
 			// (i) address in use: the failing Listen of a second socket can be retried once the address is free
@@ -293,7 +293,7 @@ func c12Run(w *W) {
 			stalled, _ := nt.Dial(NetKey(a))
 			if stalled != nil {
 				w.Fault("hs-stall")
-				if tran != "tls+tcp" && w.Choose(simrt.SProg, 2) == 0 {
+				if (tran == "tcp" || tran == "ipc" || tran == "sim" || tran == "simipc") && w.Choose(simrt.SProg, 2) == 0 {
 					stalled.Write([]byte{0, 'S', 'P'})
 				}
 			}
